@@ -64,3 +64,64 @@ Lemma ex_final_state :
   frun root_env_022 [] (admission_ops Fixed Sock peer_1000) =
   [(TCtl, mkE 1000 1000 m600 false); (TDir, mkE 1000 1000 m700 true)].
 Proof. vm_compute. reflexivity. Qed.
+
+(* ------------------------------------------------------------------ whose requests reach msg_process *)
+Definition is_msg (ev : levent) : bool := match ev with EvMsg | EvMsgForeign => true | _ => false end.
+Definition nmsg (l : list levent) : nat := length (filter is_msg l).
+Definition is_peer_send (o : lop) : bool := match o with LPeerSend => true | _ => false end.
+Definition npeer_sends (l : list lop) : nat := length (filter is_peer_send l).
+
+Lemma nmsg_snoc l ev : nmsg (l ++ [ev]) = (nmsg l + (if is_msg ev then 1 else 0))%nat.
+Proof. unfold nmsg. rewrite filter_app, app_length. cbn [filter]. destruct (is_msg ev); reflexivity. Qed.
+
+Lemma lexec_nmsg en s o : foreign_blocked o = true ->
+  (nmsg (l_log (fst (lexec en s o))) <= nmsg (l_log s) + (if is_peer_send o then 1 else 0))%nat /\
+  (~ In EvMsgForeign (l_log s) -> ~ In EvMsgForeign (l_log (fst (lexec en s o)))).
+Proof.
+  intro Hb. destruct s as [f c lg].
+  destruct o as [| t m | t m | t u g | t | | u g | e | | | | tr filt | cb];
+    cbn [lexec l_fs l_chan l_log with_log with_fs fst is_peer_send];
+    try (destruct tr; [| destruct filt; [| discriminate Hb]]; cbn [negb andb]; rewrite ?andb_false_r);
+    repeat match goal with
+           | |- context [match lookup ?t ?g with _ => _ end] => destruct (lookup t g)
+           | |- context [if ?b then _ else _] => destruct b
+           end;
+    cbn [l_log fst with_log with_fs l_fs l_chan]; rewrite ?nmsg_snoc; cbn [is_msg];
+    (split; [lia | intros Hn Hin; try (apply in_app_or in Hin; destruct Hin as [Hin | [Hin | []]]; [| discriminate Hin]);
+                   exact (Hn Hin)]).
+Qed.
+
+Lemma lrun_nmsg en : forall l s, forallb foreign_blocked l = true ->
+  (nmsg (l_log (lrun en s l)) <= nmsg (l_log s) + npeer_sends l)%nat /\
+  (~ In EvMsgForeign (l_log s) -> ~ In EvMsgForeign (l_log (lrun en s l))).
+Proof.
+  induction l as [| o r IH]; intros s H.
+  - cbn. split; [lia | auto].
+  - cbn in H. apply andb_true_iff in H as [H1 H2]. cbn [lrun].
+    destruct (lexec_nmsg en s o H1) as [A1 A2]. destruct (IH (fst (lexec en s o)) H2) as [B1 B2].
+    split; [| auto]. unfold npeer_sends in *. cbn [filter]. destruct (is_peer_send o); cbn [length]; lia.
+Qed.
+
+(* any interleaving: if no foreign datagram can get through (shm, or the sender check is in place), msg_process is
+   never invoked for a request that the connection's own peer did not send, and it is invoked at most once per request
+   the peer did send *)
+Theorem own_peer_only_global : forall en l k,
+  forallb foreign_blocked (proj k l) = true ->
+  ~ In EvMsgForeign (l_log (run en w_empty l k)) /\
+  (nmsg (l_log (run en w_empty l k)) <= npeer_sends (proj k l))%nat.
+Proof.
+  intros en l k H. rewrite run_proj. destruct (lrun_nmsg en (proj k l) (w_empty k) H) as [A B].
+  split; [apply B; cbn; auto | exact A].
+Qed.
+
+(* the socket transport without the sender check: an accepted peer that sends nothing, one datagram of another
+   process, and msg_process runs *)
+Definition foreign_witness : list lop := admission_ops Fixed Sock peer_1000 ++ [LForeign Sock false].
+Lemma foreign_refuted :
+  In EvMsgForeign (l_log (lrun root_env_022 l_empty foreign_witness)) /\ npeer_sends foreign_witness = 0%nat /\
+  ~ In EvMsgForeign (l_log (lrun root_env_022 l_empty (admission_ops Fixed Sock peer_1000 ++ [LForeign Sock true]))) /\
+  ~ In EvMsgForeign (l_log (lrun root_env_022 l_empty (admission_ops Fixed Shm peer_1000 ++ [LForeign Shm false]))).
+Proof.
+  split; [vm_compute; tauto |]. split; [reflexivity |].
+  split; vm_compute; intuition discriminate.
+Qed.
